@@ -728,7 +728,7 @@ pub fn plan(property: &'static str, tier: &str) -> Plan {
     let mut units = Vec::new();
     for (cfg, bound) in cfgs {
         let ecfg = ExecCfg { stack: 1 << 19, max_steps: 60_000, ..Default::default() };
-        let split = if cfg.depth >= 4 { 16 } else { 2 };
+        let split = if bound >= 1 && !cfg.lean { 64 } else if cfg.depth >= 4 { 16 } else { 2 };
         units.push(Unit::explore_split(XJob::new(format!("{}/{}", property.to_lowercase(), cfg.name()), ecfg, Some(if thorough && !cfg.lean { bound.max(1) } else { bound }), body(cfg, property)), split));
     }
     if property == "C15" {
